@@ -70,6 +70,8 @@ type cx struct {
 	rotResp  *types.RotateNodeCredentialsResponse
 	certResp *types.GenerateServerCertificatesResponse
 	creds    *types.NodeCredentials
+	// faultFired: an injected fault actually hit an operation of the (first) call
+	faultFired bool
 }
 
 type flow struct {
@@ -366,6 +368,12 @@ func flows() []flow {
 				if err == nil && (c.certResp == nil || len(c.certResp.CertificateBundles) != 2) {
 					return "certificates-incomplete", "success without two certificate bundles"
 				}
+				if err == nil && c.faultFired {
+					// every storage operation of this call is a READ the decision rests on (the
+					// node record(s) to verify against, the roots to sign with): if one of them
+					// failed, certificates cannot have been minted against a verified signature
+					return "certificates-despite-failed-read", "a storage read the call depends on failed, yet server certificates were handed out"
+				}
 				return "", ""
 			}})
 	}
@@ -500,6 +508,7 @@ func execute(f flow, wd world, plan faultPlan) (n int, key, what string, ops []s
 		s := o.Kind + " " + o.Type
 		if vkit.IsInjected(o.Err) {
 			s += " [FAULT]"
+			c.faultFired = true
 		}
 		ops = append(ops, s)
 	}
@@ -540,6 +549,7 @@ func execute(f flow, wd world, plan faultPlan) (n int, key, what string, ops []s
 	// (state left behind by the failed attempt must not let the retry skip persisting).
 	if rerr != nil && (len(plan.positions) > 0 || plan.byKind != "") {
 		var rerr2 error
+		c.faultFired = false // the retry runs without faults
 		if pv, stack := vkit.Guard(func() { rerr2 = f.run(c) }); pv != nil {
 			return n, "panic-on-retry", fmt.Sprintf("panic in the retry after a failed call: %v\n%s", pv, stack), ops
 		}
